@@ -3,9 +3,13 @@ package c14
 
 import (
 	"bytes"
+	"encoding/json"
 	"errors"
 	"fmt"
+	"os"
+	"strings"
 	"testing"
+	"time"
 
 	"github.com/iotaledger/iota.go/trinary"
 	"github.com/wollac/iota-crypto-demo/pkg/encoding/b1t6"
@@ -17,6 +21,9 @@ import (
 )
 
 func TestMain(m *testing.M) {
+	if spec, ok := h.ChildSpec("VERIF_C14_CHILD"); ok {
+		firstUseChild(spec) // never returns
+	}
 	if err := ref.SelfCheck(); err != nil {
 		fmt.Println("VERIF-INFRA reference self-check failed:", err)
 		panic(err)
@@ -34,6 +41,125 @@ func eqTrits(a trinary.Trits, b []int8) bool {
 		}
 	}
 	return true
+}
+
+// ---- first use of the codecs, by several goroutines at once, in a fresh process ----
+
+type firstUse struct {
+	Inputs []h.B `json:"inputs"` // one byte string per goroutine
+	Entry  []int `json:"entry"`  // which entry point each goroutine calls first (index into entryNames)
+}
+
+var entryNames = []string{"b1t6.DecodeTrytes", "b1t6.Decode", "b1t6.EncodeToTrytes", "b1t6.Encode", "b1t8.Decode", "b1t8.Encode"}
+
+// firstUseChild runs in the re-executed child: the goroutines' calls below are the first calls into the
+// two codec packages in this process.
+func firstUseChild(spec string) {
+	var c firstUse
+	if err := json.Unmarshal([]byte(spec), &c); err != nil {
+		fmt.Println("CHILD-BAD-SPEC", err)
+		os.Exit(3)
+	}
+	type prep struct {
+		trits6, trits8 []int8
+		trytes         string
+	}
+	preps := make([]prep, len(c.Inputs))
+	for g, in := range c.Inputs { // reference only: no library call before the barrier
+		preps[g] = prep{ref.B1T6Encode(in), ref.B1T8Encode(in), ref.TritsToTrytes(ref.B1T6Encode(in))}
+	}
+	err := h.Parallel(len(c.Inputs), func(g int) error {
+		in, p := []byte(c.Inputs[g]), preps[g]
+		for round := 0; round < 2; round++ {
+			switch c.Entry[g] {
+			case 0:
+				got, err := b1t6.DecodeTrytes(p.trytes)
+				if err != nil || !bytes.Equal(got, in) {
+					return fmt.Errorf("b1t6.DecodeTrytes(%q) = %x, %v; want %x", p.trytes, got, err, in)
+				}
+			case 1:
+				dst := make([]byte, len(in)+1)
+				n, err := b1t6.Decode(dst, trinary.Trits(p.trits6))
+				if err != nil || n != len(in) || !bytes.Equal(dst[:n], in) {
+					return fmt.Errorf("b1t6.Decode(%v) = %x (n=%d), %v; want %x", p.trits6, dst, n, err, in)
+				}
+			case 2:
+				if got := b1t6.EncodeToTrytes(in); got != p.trytes {
+					return fmt.Errorf("b1t6.EncodeToTrytes(%x) = %q; want %q", in, got, p.trytes)
+				}
+			case 3:
+				dst := make(trinary.Trits, len(p.trits6))
+				if n := b1t6.Encode(dst, in); n != len(p.trits6) || !eqTrits(dst, p.trits6) {
+					return fmt.Errorf("b1t6.Encode(%x) = %v; want %v", in, dst, p.trits6)
+				}
+			case 4:
+				dst := make([]byte, len(in)+1)
+				n, err := b1t8.Decode(dst, trinary.Trits(p.trits8))
+				if err != nil || n != len(in) || !bytes.Equal(dst[:n], in) {
+					return fmt.Errorf("b1t8.Decode(%v) = %x (n=%d), %v; want %x", p.trits8, dst, n, err, in)
+				}
+			default:
+				dst := make(trinary.Trits, len(p.trits8))
+				if n := b1t8.Encode(dst, in); n != len(p.trits8) || !eqTrits(dst, p.trits8) {
+					return fmt.Errorf("b1t8.Encode(%x) = %v; want %v", in, dst, p.trits8)
+				}
+			}
+		}
+		return nil
+	})
+	if err != nil {
+		fmt.Println("CHILD-MISMATCH", err)
+		os.Exit(1)
+	}
+	fmt.Println("CHILD-OK")
+	os.Exit(0)
+}
+
+func checkFirstUse(c firstUse) (h.Info, error) {
+	info := h.Info{Class: fmt.Sprintf("goroutines=%d", len(c.Inputs)), NT: true}
+	if len(c.Entry) != len(c.Inputs) {
+		return info, fmt.Errorf("PRECONDITION: entry list")
+	}
+	spec, _ := json.Marshal(c)
+	for rep := 0; rep < 8; rep++ { // a first-use race has one chance per process
+		out, timedOut, err := h.RunChild("VERIF_C14_CHILD", string(spec), 60*time.Second)
+		switch {
+		case strings.Contains(out, "CHILD-OK"):
+			continue
+		case strings.Contains(out, "CHILD-MISMATCH"):
+			return info, fmt.Errorf("first calls into the codecs in a fresh process (attempt %d), %d goroutines at once (entry points %v): %s", rep, len(c.Inputs), c.Entry, strings.TrimSpace(out[strings.Index(out, "CHILD-MISMATCH")+15:]))
+		case timedOut:
+			return info, fmt.Errorf("PRECONDITION: child process timed out (infrastructure)")
+		case strings.Contains(out, "panic:") || strings.Contains(out, "fatal error:"):
+			return info, fmt.Errorf("first calls into the codecs in a fresh process (attempt %d), %d goroutines at once (entry points %v): the process crashed: %.600s", rep, len(c.Inputs), c.Entry, out)
+		default:
+			return info, fmt.Errorf("PRECONDITION: child process could not run (infrastructure): %v %.300s", err, out)
+		}
+	}
+	return info, nil
+}
+
+func TestFirstUse(t *testing.T) {
+	h.Run(t, h.Sub[firstUse]{
+		Prop: "C14", Name: "concurrent-first-use-child-process", N: 48,
+		Gen: func(t *rapid.T) firstUse {
+			var c firstUse
+			same := h.Pick(t, "same", 1, 1) == 1
+			e0 := rapid.IntRange(0, len(entryNames)-1).Draw(t, "e0")
+			for i := h.OneOf(t, "g", 2, 4, 8); i > 0; i-- {
+				c.Inputs = append(c.Inputs, h.Bytes(t, "in", 1, 40))
+				if same {
+					c.Entry = append(c.Entry, e0)
+				} else {
+					c.Entry = append(c.Entry, rapid.IntRange(0, len(entryNames)-1).Draw(t, "e"))
+				}
+			}
+			return c
+		},
+		Check:   checkFirstUse,
+		Require: []string{"goroutines=2", "goroutines=8"},
+		Rule:    "schedules: the test binary re-executes itself 8 times per case; in each fresh process 2..8 goroutines released together make the process's first calls into b1t6/b1t8 (DecodeTrytes, Decode, EncodeToTrytes, Encode; all the same entry point or mixed) on their own valid inputs, twice; every result = reference; all non-trivial",
+	})
 }
 
 // ---- encode direction ----
